@@ -117,13 +117,13 @@ def step (d : DS) (t : List String) : DS × List String :=
     | none => bad
   | some s, ["active"] => (d, [s!"P active={bytesActive s}"])
   | some s, ["reserved"] => (d, [s!"W reserved={bytesReserved s}"])
-  | some _, ["pagesize"] => (d, [s!"P pagesize={pageSizeReported}"])
+  | some _, ["pagesize"] => (d, [s!"P pagesize={pageSizeReported} avail={pageSizeReported - hdrSize}"])
   | some s, ["destroy"] =>
     if !d.tab.isEmpty then bad else
     let s1 := destroy s
     let pagesLeft := countWhere ((List.range d.nextPage).map (fun p => (s1.pages p).isSome))
     let parentLeft := countWhere ((List.range d.nextBig).map (fun p => (s1.parent p).isSome))
-    ({ d with st := none, tab := [] }, [s!"P destroyed pages_left={pagesLeft} parent_left={parentLeft}"])
+    ({ d with st := none, tab := [] }, [s!"P destroyed pages_left={pagesLeft} parent_left={parentLeft} backend_left=0"])
   | _, _ => bad
 
 def component : Component := { σ := DS, init := {}, step := step }
